@@ -586,6 +586,19 @@ def build(active_known=frozenset()):
 
         c.ensures("conj! of [k v] binds k to v and leaves every other entry alone", post)
 
+    for nil_at, lbl in ((0, "nil, then a map entry"), (1, "a map entry, then nil")):
+        c = newtm(tm + "cons_transient", TM, lbl)
+        c.param("elems", STAR(2)).param(f"elems{1 - nil_at}", OBJ(ME))
+        c.requires("one element is nil, the other a map entry",
+                   lambda a, nil_at=nil_at: z3.And(V.is_none(getattr(a, f"elems{nil_at}")), z3.Length(sview(a.pre, getattr(a, f"elems{1 - nil_at}"))) == 2))
+        c.raises()
+
+        def post2t(a, nil_at=nil_at):
+            E = sview(a.pre, getattr(a, f"elems{1 - nil_at}"))
+            return z3.And(a.result == a.self, same_map(tmview(a.post, a.self), model_assoc(*tmview(a.pre, a.self), E[0], E[1])))
+
+        c.ensures("a nil among the arguments of conj! is skipped and the other elements are added all the same", post2t)
+
     # =================================================================================== PersistentSet / TransientSet
     ps, ts = "basilisp.lang.set:PersistentSet.", "basilisp.lang.set:TransientSet."
 
